@@ -1,5 +1,5 @@
 (* Model of solvor/milp.py  (solve_milp 74-232, _solve_node 235-298, _most_fractional 301-308, _compute_gap 311-314,
-   _detect_binary 317-329, _is_feasible 332-343, _round_binary 346-421), tree after commits 5461f0f, 48990b1 and 7e63594.
+   _detect_binary 317-329, _is_feasible 332-343, _round_binary 346-421), tree after commits 5461f0f, 48990b1, 7e63594 and cccee4d.
    Definitions only.  Shape O over Q: float arithmetic is carried out in exact rationals, `eps` and `gap_tol` are
    parameters.  Two things are NOT modelled but taken as arguments (oracles):
      lp  : the LP kernel `solve_lp` called by `_solve_node`  (instantiated with SV.C03.Simplex.solve_lp in MilpInst.v)
@@ -53,6 +53,11 @@ Record nres := mkN { n_status : lp_status; n_sol : list Q; n_obj : Q }.
 
 (* the LP kernel: minimize, max_iter, c, A, b  |->  status, solution, objective   (eps is fixed by the instantiation) *)
 Definition lp_kernel := bool -> nat -> list Q -> list (list Q) -> list Q -> lp_status * list Q * Q.
+
+(* the tolerance _solve_node hands to solve_lp since commit cccee4d: `eps=min(eps, 1e-10)` (milp's eps is its integrality /
+   feasibility tolerance, the simplex pivots use their own tighter one).  The instantiation of the kernel uses it:
+   MilpInst.run_case runs  simplex_kernel (lp_eps eps). *)
+Definition lp_eps (eps : Q) : Q := if Qleb eps (1 # 10000000000) then eps else 1 # 10000000000.
 
 (* ---------- def _solve_node(c, A, b, lower, upper, minimize, eps, max_iter) *)
 (* first loop.  Outer None: some `hi < lo - eps`.  Per variable: Some lo = fixed[j], None = j in free_vars *)
